@@ -315,6 +315,10 @@ func (p *c12) exec(t *testing.T, scAny any) Outcome {
 			if !spec.canFailOpen(j) {
 				return
 			}
+		} else if strings.HasSuffix(where, "!close") {
+			if !spec.canFailClose(j) {
+				return
+			}
 		} else if strings.HasSuffix(where, "!isdir") {
 			if !spec.canFailIsDir(j) {
 				return
@@ -402,6 +406,8 @@ func (p *c12) exec(t *testing.T, scAny any) Outcome {
 			runProducer(j, "end!seek", "", -1)
 			// the path opens, but reading it fails at once (it is a directory now)
 			runProducer(j, "start!isdir", "", -1)
+			// everything is read, closing the source reports an error
+			runProducer(j, "end!close", "", -1)
 		}
 		// combinations: one producer fault and one sink fault, sampled
 		r := sim.NewRand(sc.Seed)
